@@ -300,7 +300,10 @@ PROPS["C19"].update(
     modules=["contracts.tunnel"], technique=E1_TECHNIQUE,
     explanation=PROPS["C19"]["explanation"] + " Order independence of connects_nodes is additionally proved as a contract: "
                 "the answer is the symmetric 'one node on each side' formula over the (uninterpreted) side membership "
-                "predicates (E1).")
+                "predicates (E1). The statement groups of VMTunnel.__init__ that write the two end points' parameters are under "
+                "contract as extracted blocks: sides and types (#side_params), the left local network and its mirror as the right "
+                "remote network (#local_net), the right local network and its mirror (#remote_net), peer addresses pointing at each "
+                "other (#peer_params), swapped pre-shared-key identities (#auth_params); unsupported types raise ValueError (E1).")
 
 PROPS["C15"].update(
     modules=["contracts.update_tool"], technique=E1_TECHNIQUE,
